@@ -1,7 +1,8 @@
 import CJ.Model.Registry
 import CJ.Drv.Util
 /-! Driver for the registry model.
-`registry|<unusedT>|<activeT>|<enabled>|<op>;<op>;…` → `<out>;<out>;…|D:<decoys>|T:<timeouts>` -/
+`registry|<unusedT>|<activeT>|<enabled>|<op>;<op>;…` → `<out>;<out>;…|D:<decoys>|T:<timeouts>|P:<buckets>`
+(`P`: the phantoms whose inner map is stored in the nested Go map, from the bucketed model `bstep`). -/
 namespace CJ.Drv.Registry
 open CJ.Registry CJ.Drv
 
@@ -39,10 +40,10 @@ def handle (args : List String) : Option String :=
   | [u, a, en, ops] => do
     let c : Cfg := { unusedT := ← u.toNat?, activeT := ← a.toNat?, enabled := ← parseNatList en }
     let ops ← (fields ops ";").mapM parseOp
-    let (s, outs) := ops.foldl (fun (acc : St × List String) o =>
-      let (s', out) := step c acc.1 o
-      (s', showOut out :: acc.2)) (init, [])
-    some (joinWith ";" outs.reverse ++ "|" ++ dump s)
+    let (b, outs) := ops.foldl (fun (acc : BSt × List String) o =>
+      let (b', out) := bstep c acc.1 o
+      (b', showOut out :: acc.2)) (binit, [])
+    some (joinWith ";" outs.reverse ++ "|" ++ dump b.st ++ "|P:" ++ joinWith "," (sortStrings b.buckets))
   | _ => none
 
 end CJ.Drv.Registry
